@@ -135,7 +135,7 @@ def replay(cases_path, zerv_bin, report_path):
         zerv._run_zerv_command = recorder
         try:
             getattr(zerv, fn)(*pos, **kwargs)
-            got = captured[0]
+            got = captured[0] if captured else ["<no command was run>"]
         except Exception as e:  # noqa: BLE001
             got = ["<exception %r>" % e]
         finally:
@@ -152,6 +152,10 @@ def replay(cases_path, zerv_bin, report_path):
         zerv._run_zerv_command = recorder
         getattr(zerv, fn)(*pos, **full)
         zerv._run_zerv_command = real_run
+        if not captured:
+            # the call did not reach the command runner at all (an answer remembered from an earlier call?)
+            mismatches.append({"key": "C18:argv", "call": "%s(%s)" % (fn, full), "expected": "a command line is run", "observed": "no command was run"})
+            continue
         argv = captured[0]
         direct = subprocess.run([zerv_bin] + argv, capture_output=True, text=True, stdin=subprocess.DEVNULL)
         zerv.find_zerv_bin = lambda: zerv_bin
